@@ -277,9 +277,17 @@ def decode_rerun(mdl_a, mdl_b, log, how, mode="scalar"):
             return mdl_a.P(s, _sym(y), k)
     h = HMM(S_a, Qf, Pf, log=log, stationarity=mdl_a.stationary)
     obsname = "sym" if mode == "scalar" else ["x", "y"]
+    # error path first: decoding requests that are rejected (the track has no feature of that name), with and
+    # without the log argument of estimate(); what they raise is not judged
+    M.call(h.estimate, tr, "no_such_feature", True, MODE_NAMES[mode], 0)
+    M.call(h.estimate, tr, "no_such_feature", not log, MODE_NAMES[mode], 0)
+    M.CTX.count("rejected_estimate_before_valid_one")
     r = M.call(h.estimate, tr, obsname, mode=MODE_NAMES[mode], verbose=0)
     if M.is_raised(r):
         return r
+    first = M.call(lambda: (list(tr["hmm_inference"]), list(tr["hmm_cost"])))
+    if how == "first_run_only":
+        return first
     if how == "track_edit":
         for k in range(T):
             tr["grp", k] = 1.0
@@ -728,6 +736,11 @@ def run_rnd(case, ctx):
             if not (best2 > 0 and neg_log(best2) > 600):
                 how = hr.choice(["setStates", "track_edit"])
                 uselog = hr.random() < 0.3
+                out0 = decode_rerun(mdl, mdl2, uselog, "first_run_only", case["mode"])
+                w = judge(mdl, out0, p, q, best, ctx, "estimate() on an HMM object whose earlier requests were rejected")
+                if w is not None:
+                    w.update({"sequences": nseq, "counts": counts})
+                    return violated(w, sig, nt, cls)
                 out3 = decode_rerun(mdl, mdl2, uselog, how, case["mode"])
                 ctx.monitor("rerun_same_objects")
                 w = judge(mdl2, out3, p2, q2, best2, ctx, "second estimate() on the same HMM and track objects after the "
